@@ -19,6 +19,10 @@ def errName : Err → String
   | .value => "ValueError"
   | .attribute => "AttributeError"
   | .sortMixed => "*"
+  | .ambiguous => "AmbiguousMethodException"
+  | .tooLarge => "CollectionTooLargeException"
+  | .wrappedStop => "WrappedException"
+  | .unknownMethod => "NoMethodRegisteredException"
   | .outOfDomain => "OOD"
 
 def chars (j : Json) : List Char := (asStr j).toList
@@ -147,15 +151,40 @@ def opOfJson (j : Json) : Option Op :=
   | "unpack" => some (.unpack ((jarr j "names").map chars) (jnat j "n"))
   | _ => none
 
+/-- `"opts":{"id":bool,"tl":bool,"sl":bool,"ci":bool,"lim":n|null,"co":bool}`: the options of the engine the statement belongs to -/
+def optsOfJson (j : Json) : Opts :=
+  { iterableDicts := jbool j "id", tuplesToLists := jbool j "tl", setsToLists := jbool j "sl", convertInput := jbool j "ci",
+    limit := jnatOpt j "lim", convertOutput := !(jhas j "co") || jbool j "co",
+    aggFallback := !(jhas j "af") || jbool j "af", noSets := jbool j "ns" }
+
+/-- `"obs":{"shape":"letPair","u":<op>,"u2":<op>}`: the observing program around the pipeline's result -/
+def obsOfJson (j : Json) : Option Obs := do
+  let u ← opOfJson (jget j "u")
+  match jstr j "shape" with
+  | "letPair" => some (.letPair u)
+  | "selPair" => some (.selPair u)
+  | "memPair" => some (.memPair u)
+  | "letTwice" => do let u2 ← opOfJson (jget j "u2"); some (.letTwice u u2)
+  | "letChain" => do let u2 ← opOfJson (jget j "u2"); some (.letChain u u2)
+  | _ => none
+
+/-- `data` is the document in HOST form (lists, tuples, dicts, sets, a one-shot iterator): the model converts it itself
+    when the engine does -/
 def runCase (c : Json) : Json :=
   let data := valOfJson (jget c "data")
   let ops := (jarr c "ops").map opOfJson
+  let opts := optsOfJson (jget c "opts")
   if ops.any Option.isNone then jerr "bad-op"
   else
     let binder := if jhas c "let" && !jisNull (jget c "let") then opOfJson (jget c "let") else none
-    match runPipeLet binder (ops.filterMap id) data with
-    | .ok v => jo [("ok", valToJson v)]
-    | .error e => jo [("err", js (errName e))]
+    let r : Option (Seq.R Value) :=
+      if jhas c "obs" && !jisNull (jget c "obs") then
+        (obsOfJson (jget c "obs")).map fun obs => runObserve opts binder (ops.filterMap id) obs data
+      else some (runPipeLet opts binder (ops.filterMap id) data)
+    match r with
+    | none => jerr "bad-op"
+    | some (.ok v) => jo [("ok", valToJson v)]
+    | some (.error e) => jo [("err", js (errName e))]
 
 def handle (req : Json) : Json :=
   jo [("res", jl ((jarr req "cases").map runCase))]
